@@ -35,7 +35,7 @@ theorem read_lt {m : Mem} {addr w v : Nat} (h : m.read addr w = some v) : v < 25
   · cases h
   · simp only at h
     split at h
-    · cases h; exact leAt_lt _ _ _
+    · cases h; exact Mem.wordAt_lt _ _ _
     · cases h
 
 theorem read_le_regMax {a : Arch} {m : Mem} {addr v : Nat} (h : m.read addr a.ptr = some v) :
